@@ -203,8 +203,22 @@ func oneTree(e *mavlh.Eng, r *gen.Rand, cfg mavlh.Cfg) {
 	var vs []version
 	var parent []byte
 	var psnap *mavlh.Snap
+	// forgery set-up: a pair (fk, fv) that is NOT written, and a crafted leaf that is
+	fk, fv := append([]byte("victim-"), r.Bytes(r.Range(1, 30))...), r.Bytes(r.Range(0, 40))
+	fhash := (&types.LeafNode{Key: fk, Value: fv, Height: 0, Size: 1}).Hash()
+	forgeVariant := r.Intn(3) // 0: none, 1: crafted key, 2: crafted value
+	var crafted mavlh.KV
+	switch forgeVariant {
+	case 1:
+		crafted = mavlh.KV{K: fhash, V: r.Bytes(r.Range(1, 32))}
+	case 2:
+		crafted = mavlh.KV{K: append([]byte("fk"), r.Bytes(r.Range(1, 30))...), V: fhash}
+	}
 	for b, nb := 0, r.Range(1, 4); b < nb; b++ {
 		kvs := kg.Batch([]int{1, 2, r.Range(3, 12), r.Range(13, 80)}[r.Pick(1, 1, 4, 2)])
+		if b == 0 && forgeVariant != 0 {
+			kvs = append(kvs, crafted)
+		}
 		root, st := e.Set(parent, int64(b+1), kvs)
 		if len(st) < 5 || st[:5] != "root " {
 			out.Pred("C03|Store.Set|"+st, "")
@@ -284,6 +298,54 @@ func oneTree(e *mavlh.Eng, r *gen.Rand, cfg mavlh.Cfg) {
 			out.Stat("absent_key_proofs", 1)
 		}
 	}
+	// forged membership: the crafted leaf re-read as an inner node in front of its honest proof
+	if forgeVariant != 0 && len(vs) > 0 {
+		ver := vs[len(vs)-1]
+		if cur, ok := ver.snap.M[string(crafted.K)]; ok && bytes.Equal(cur, crafted.V) {
+			if _, present := ver.snap.M[string(fk)]; !present {
+				honest, exists, _ := e.Proof(ver.root, crafted.K)
+				var p types.MAVLProof
+				if exists && types.Decode(honest, &p) == nil {
+					node := &types.InnerNode{Height: 0, Size: 1}
+					if forgeVariant == 1 {
+						node.RightHash = crafted.V
+					} else {
+						node.LeftHash = crafted.K
+					}
+					forged := types.Encode(&types.MAVLProof{InnerNodes: append([]*types.InnerNode{node}, p.InnerNodes...)})
+					out.Stat("forgery_attempts", 1)
+					if verify(e, ver.root, fk, fv, forged, "forged-membership") {
+						out.Pred("C03|VerifyKVPairProof|accepts-forged-proof-leaf-reread-as-inner-node",
+							fmt.Sprintf("variant=%d cfg=%s root=%x absent-key=%x value=%x crafted-leaf=%x:%x proof=%x", forgeVariant, cfg.Bits(), ver.root, fk, fv, crafted.K, crafted.V, forged))
+					}
+				}
+			}
+		}
+	}
+	// Proof.Verify directly on the structure returned by Tree.ConstructProof
+	for _, ver := range vs {
+		keys := ver.snap.Keys()
+		for i := 0; i < 4 && len(keys) > 0; i++ {
+			pk := []byte(keys[r.Intn(len(keys))])
+			v := ver.snap.M[string(pk)]
+			chk := func(k, v, vroot []byte, want bool, kind string) {
+				ok, st := e.PVerify(ver.root, pk, k, v, vroot)
+				out.Stat("proof_verify_direct", 1)
+				if st == "panic" || st == "notfound" || st == "noproof" {
+					out.Pred("C03|Proof.Verify|"+st, fmt.Sprintf("root=%x key=%x", ver.root, pk))
+				} else if ok != want {
+					out.Pred("C03|Proof.Verify|"+kind, fmt.Sprintf("root=%x proofkey=%x key=%x value=%x vroot=%x", ver.root, pk, k, v, vroot))
+				}
+			}
+			chk(pk, v, ver.root, true, "rejects-honest-proof")
+			chk(mutBytes(r, pk), v, ver.root, false, "accepts-other-key")
+			if o := keys[r.Intn(len(keys))]; o != string(pk) {
+				chk([]byte(o), v, ver.root, false, "accepts-other-key")
+			}
+			chk(pk, mutBytes(r, v), ver.root, false, "accepts-other-value")
+			chk(pk, v, flip(r, ver.root), false, "accepts-other-root")
+		}
+	}
 	// arbitrary bytes as proofs
 	if len(vs) > 0 {
 		ver := vs[len(vs)-1]
@@ -312,7 +374,7 @@ func main() {
 	}
 	r := gen.New(gen.Seed())
 	cfgs := []mavlh.Cfg{{}, {Prefix: true}, {Prune: true}, {Prefix: true, Prune: true}}
-	n := gen.Scale(24, 1000)
+	n := gen.Scale(16, 1000)
 	for i := 0; i < n; i++ {
 		for _, c := range cfgs {
 			if r.Chance(1, 6) { // the other sub-options do not reach proof.go; sampled now and then
